@@ -89,6 +89,16 @@ def brute_force_per_output(tc, sc, spec, rows, zs, semiring):
 def run_scenario(run: Run, scen: dict, rng: random.Random):
     spec, zs, semiring, fold, optimize = scen["spec"], scen["Z"], scen["semiring"], scen["fold"], scen["optimize"]
     sc = gen.build_circuit(spec)
+    operands = [sc]
+    if scen.get("other"):
+        # the integrand is a product of two compatible circuits (its constant layers are outer products of parameters)
+        other = gen.build_circuit(scen["other"])
+        try:
+            operands = [sc, other]
+            sc = SF.multiply(sc, other)
+        except Exception as e:  # noqa: BLE001
+            run.feature("refused", "multiply:" + pipelines.error_class(e))
+            return
     if not (sc.is_smooth and sc.is_decomposable):
         return
     cont = set(spec.get("continuous", []))
@@ -113,9 +123,12 @@ def run_scenario(run: Run, scen: dict, rng: random.Random):
     mc = common.ModelCircuit(sc)
     mi = common.ModelCircuit(isc, mode=mc.mode)
     try:
-        comp, tc = real.compile_circuit(sc, fold=fold, optimize=optimize, semiring=semiring)
+        comp = real.TorchCompiler(semiring=semiring, fold=fold, optimize=optimize)
+        for o_ in operands:
+            comp.compile(o_)
+        tc = comp.compile(sc)
         itc = comp.compile(isc)
-        theta = real.read_theta(comp, ser.tensor_params(sc))
+        theta = real.read_theta(comp, [p_ for o_ in operands for p_ in ser.tensor_params(o_)])
         if n_cont_z == 0:
             a = mi.eval(theta, rows)
             b = mc.d.spec_integrate(mc.cid, theta, rows, zs)
@@ -227,11 +240,19 @@ def check(run: Run, tier: str, seed: int):
             spec = gen.gen_spec(srng, nv=2, **o)
         feats = gen.spec_features(spec)
         nontrivial = feats["had"] + feats["kron"] > 0 and any(d["t"] == "sum" for d in spec["layers"])
+        other = None
+        if (i // len(CLASSES)) % 3 == 2 and cls in ("emb", "emb_signed"):
+            import c04
+            ops = c04.gen_operands(srng, dict(o, **c04.COMMON), "pair")
+            spec, other = ops[0]["spec"], ops[1]["spec"]
+            feats = gen.spec_features(spec)
         for zs in subsets(spec["vars"], srng, 4 if tier == "quick" else 15):
             semiring = srng.choice(semirings)
             fold, optimize = srng.choice(real.FLAGS)
             scen = {"spec": spec, "class": cls, "Z": sorted(zs), "semiring": semiring, "fold": fold, "optimize": optimize}
-            run.case({"spec": spec, "Z": sorted(zs)}, nontrivial=nontrivial, sample=scen if i < 1 else None,
+            if other is not None:
+                scen["other"] = other
+            run.case({"spec": spec, "Z": sorted(zs), "other": other}, nontrivial=nontrivial, sample=scen if i < 1 else None,
                      features={"class": cls, "|Z|": len(zs), "full_scope": len(zs) == len(spec["vars"]),
                                "semiring": semiring, "flags": f"{fold},{optimize}", "outputs": feats["outputs"],
                                "sum_arity_max": feats["sum_arity_max"]})
